@@ -434,3 +434,7 @@ def run(program, res, tier):
     order_sensitive_functions_rule(program, res)
     res.rule("C18-S5", "a limit is a non-negative row count")
     limit_domain_rule(program, res)
+    res.rule("C18-S6", "an ordered window is put in its declared order whatever order the rows come in (sort keys, directions, no data-dependent skipping; C27-S1 / S3)")
+    from . import c27
+    from ..report import Only
+    c27.run(program, Only(res, {"C27-S1": "C18-S6", "C27-S3": "C18-S6"}), tier)
